@@ -153,28 +153,25 @@ Proof. exact recompress_nodes. Qed.
 Print Assumptions C09_recompress_nodes_partial.
 
 (* ---- idempotence and the singleton route ---------------------------------------------------------------------- *)
-(* FULL STATEMENTS (not proved at model level in full):
-     recompress_idempotent : rvalid g -> (no two distinct nodes of g mergeable) ->
-        compress_graph g None = Some out -> same_nodes K stranded g out
-     singleton_route : well-formed table T -> compress_graph (one node per entry of T) None = Some a ->
-        compress_kmers T = Some b -> same_partition K stranded a b
-   Proved for the model: node-level idempotence - a valid graph without a mergeable pair of distinct nodes comes back
-   with every node path a singleton, the same node sequences and the same payloads, in the same order (missing for
-   [same_nodes]: equality of the extension bytes; the theorems above give inclusion).  singleton_route is not proved at
-   model level: it needs C02 same_node_iff for compress_kmers (another work package) next to C09_recompress_maximal.
-   Both full statements are decided on every generated case by the two verified checkers below, whose soundness is
-   proved, run on the implementation's outputs. *)
-Theorem C09_recompress_idempotent_partial : forall D reduce join K stranded, (forall a b, join a b = join b a) ->
-  forall (g : graph D) out paths,
+(* Idempotence, FULL for the model and stronger than the property asks: a valid graph in which no two distinct nodes are
+   mergeable is a FIXED POINT of compress_graph without censoring - same nodes, same order, same orientation, same
+   extension bytes, same payloads (so in particular same_nodes K stranded g out).  On the implementation the weaker,
+   order/orientation/rotation-insensitive [same_nodes] is decided by chk.c09.idempotent (sound, below) for every output
+   re-compressed once more, and the exact model/implementation comparison covers the identity. *)
+Theorem C09_recompress_idempotent : forall D reduce join K stranded, (forall a b, join a b = join b a) ->
+  forall (g : graph D),
   rvalid D K stranded g ->
-  (forall g1, restrict D K stranded g (seq 0 (length g)) = Some g1 ->
-     forall x d y t, rnext D join K stranded g1 x d = Some (y, t) -> y = x) ->
-  compress_graph_paths D reduce join K stranded g None = Some (out, paths) ->
-  paths = map (fun i => [(i, DLeft)]) (seq 0 (length g)) /\
-  g_seqs D out = g_seqs D g /\ map (n_data D) out = map (n_data D) g.
-Proof. exact recompress_idempotent_nodes. Qed.
-Print Assumptions C09_recompress_idempotent_partial.
+  (forall x d y t, rnext D join K stranded g x d = Some (y, t) -> y = x) ->
+  compress_graph D reduce join K stranded g None = Some g.
+Proof. exact recompress_idempotent_full. Qed.
+Print Assumptions C09_recompress_idempotent.
 
+(* singleton_route, FULL STATEMENT (not proved at model level):
+     well-formed table T -> compress_graph (one node per entry of T) None = Some a -> compress_kmers T = Some b ->
+     same_partition K stranded a b
+   It needs C02 same_node_iff for compress_kmers (another work package) next to C09_recompress_maximal.  It is decided on
+   every generated case (with and without censoring, against remove_censored_exts + compress_kmers of the surviving
+   table) by the verified checker chk.c09.singleton_route, whose soundness is the _partial theorem below. *)
 Theorem C09_chk_idempotent_sound : forall K stranded (a b : graph rpay),
   chk_same_nodes K stranded a b = true -> same_nodes K stranded a b.
 Proof. exact chk_same_nodes_sound. Qed.
